@@ -341,28 +341,39 @@ func init() {
 		}
 		// any other value (the file footer's metadata struct): opaque bytes that remember what they
 		// encode, so that json.Unmarshal of the same bytes yields the value back (ghost pairing)
-		ob := opaque(2).(*SliceV)
-		key := "json"
-		for _, el := range e.sliceElems(st, ob) {
-			key += fmt.Sprintf(":%d", el.(*Term).id)
+		// two concrete marker bytes (0xF5, serial number): distinct per Marshal call, and never
+		// mistaken for framing constants when a reader looks at a truncated file
+		serial := st.syncInt["jsonSerial"] + 1
+		st.syncInt["jsonSerial"] = serial
+		if serial > 255 {
+			e.abort("UNWINDING: more than 255 json.Marshal calls of structs on one path")
 		}
-		e.jsonMemo[key] = iv
+		ob := e.mkSlice(st, []Value{ts.BVInt(8, 0xF5), ts.BVInt(8, int64(serial))})
+		nj := make(map[int]*IfaceV, len(st.jsonVals)+1)
+		for k, v := range st.jsonVals {
+			nj[k] = v
+		}
+		nj[serial] = iv
+		st.jsonVals = nj
 		setRes(st, x, TupleV{ob, nilErr()})
 		return true
 	}
 	models["encoding/json.Unmarshal"] = func(e *Engine, st *State, x *ssa.Call, args []Value) bool {
 		sl := args[0].(*SliceV)
-		key := "json"
+		var src *IfaceV
 		if sl.Obj != nil {
 			if _, isArr := st.heap[sl.Obj.ID].(*ArrayV); isArr {
-				for _, el := range e.sliceElems(st, sl) {
-					key += fmt.Sprintf(":%d", el.(*Term).id)
+				if els := e.sliceElems(st, sl); len(els) == 2 {
+					m, ok1 := concreteInt(e.ts.ZeroExt(64, els[0].(*Term)))
+					n, ok2 := concreteInt(e.ts.ZeroExt(64, els[1].(*Term)))
+					if ok1 && ok2 && m == 0xF5 {
+						src = st.jsonVals[n]
+					}
 				}
 			}
 		}
-		src, ok := e.jsonMemo[key]
-		if !ok {
-			e.abort("UNMODELLED json.Unmarshal of bytes that no json.Marshal call of this run produced")
+		if src == nil {
+			e.abort("UNMODELLED json.Unmarshal of bytes that no json.Marshal call on this path produced")
 		}
 		dst := args[1].(*IfaceV)
 		p, isPtr := dst.V.(*PtrV)
